@@ -19,6 +19,7 @@ import (
 	_ "github.com/pion/interceptor/verifh/c08"
 	_ "github.com/pion/interceptor/verifh/c10"
 	_ "github.com/pion/interceptor/verifh/c11"
+	_ "github.com/pion/interceptor/verifh/c13"
 	_ "github.com/pion/interceptor/verifh/c14"
 	_ "github.com/pion/interceptor/verifh/c15"
 	_ "github.com/pion/interceptor/verifh/c20"
